@@ -137,3 +137,11 @@ Proof.
   - assert (H : (floorZ (ln v * mult_log gamma + o) < 2 ^ 31)%Z); [|lia].
     apply floorZ_lt_Z. change (2 ^ 31)%Z with (2147483648)%Z. lra.
 Qed.
+
+(** [value] is strictly increasing in the index (quantile monotonicity needs it) *)
+Theorem value_log_incr (gamma o a : R) (i j : Z) :
+  1 < gamma -> -1 < a -> (i < j)%Z -> value_log gamma o a i < value_log gamma o a j.
+Proof.
+  intros Hg Ha Hij. rewrite !value_log_gen.
+  apply (gen_value_incr _ _ _ loglike_log _ o (mult_log_pos _ Hg)); assumption.
+Qed.
